@@ -180,10 +180,63 @@ def r19_3(repo: Repo) -> RuleResult:
     return rr
 
 
-RULES = [r19_1, r19_2, r19_3]
+def r19_4(repo: Repo) -> RuleResult:
+    """SequentialDifferenceTransformer = sliding window of width stride + 1 with the 'differences' kernel started at 0
+    with step = stride; row i of that kernel is -1 at column start + i*stride and +1 exactly `step` columns later."""
+    rr = RuleResult("R19.4", "difference rows are +x[c + step] - x[c], and the difference transformer asks for start 0, step = stride, width stride + 1", floor=3)
+    f = repo.func(WK, "difference_kernel")
+    start, step, stride = f.params[1], f.params[2], f.params[3]
+    loops = [n for n in walk_no_nested(f.node) if isinstance(n, ast.For)]
+    if len(loops) != 1 or not isinstance(loops[0].target, ast.Name):
+        raise AnalysisError("R19.4: row loop of difference_kernel not recognised")
+    i = loops[0].target.id
+    stores = {}
+    for st in loops[0].body:
+        if isinstance(st, ast.Assign) and isinstance(st.targets[0], ast.Subscript) and isinstance(st.targets[0].slice, ast.Tuple) \
+                and len(st.targets[0].slice.elts) == 2 and norm(st.targets[0].slice.elts[0]) == i:
+            v = st.value
+            val = v.value if isinstance(v, ast.Constant) else (-v.operand.value if isinstance(v, ast.UnaryOp) and isinstance(v.op, ast.USub) and isinstance(v.operand, ast.Constant) else None)
+            stores[val] = sym.poly(st.targets[0].slice.elts[1])
+    if set(stores) != {1, -1}:
+        raise AnalysisError("R19.4: the +1 / -1 stores of difference_kernel not recognised (%s)" % sorted(map(str, stores)))
+    want_minus = sym.poly(ast.parse("%s + %s * %s" % (start, i, stride), mode="eval").body)
+    if stores[-1] == want_minus:
+        rr.ok(f, "-1 column", "start + i*stride", loops[0].lineno)
+    else:
+        rr.bad(f, "-1 column", "row i subtracts column `%s`, not start + i*stride" % sym.show(stores[-1]), loops[0].lineno)
+    gap = sym.sub(stores[1], stores[-1])
+    if gap == sym.poly(ast.Name(id=step, ctx=ast.Load())):
+        rr.ok(f, "+1 column", "exactly `%s` columns after the -1 column: row i is x[c + step] - x[c]" % step, loops[0].lineno)
+    else:
+        rr.bad(f, "+1 column", "the +1 entry sits `%s` columns after the -1 entry, not `%s`: the row is not x[c + step] - x[c]" % (sym.show(gap), step), loops[0].lineno)
+    # the transformer's configuration
+    c = repo.module(SW).classes.get("SequentialDifferenceTransformer")
+    if c is None:
+        raise AnalysisError("R19.4: SequentialDifferenceTransformer not found")
+    fit = repo.resolve_method(c, "fit")
+    calls = [n for n in walk_no_nested(fit.node) if isinstance(n, ast.Call) and norm(n.func) == "SlidingWindowTransformer"]
+    if len(calls) != 1:
+        raise AnalysisError("R19.4: SequentialDifferenceTransformer.fit does not build one SlidingWindowTransformer")
+    from .common import kw
+
+    width, kernels = kw(calls[0], "window_width"), kw(calls[0], "kernels")
+    ok = width is not None and sym.poly(width) == sym.poly(ast.parse("self.stride + 1", mode="eval").body)
+    tup = kernels.elts[0] if isinstance(kernels, (ast.List, ast.Tuple)) and len(kernels.elts) == 1 else None
+    ok_k = isinstance(tup, ast.Tuple) and [norm(e) for e in tup.elts] == ["'differences'", "0", "self.stride", "self.stride"]
+    if ok and ok_k:
+        rr.ok(fit, "SlidingWindowTransformer(...)", "window_width = stride + 1, kernel ('differences', start 0, step stride, stride stride)", calls[0].lineno)
+    else:
+        rr.bad(fit, "SlidingWindowTransformer(...)", "configured with window_width=%s, kernels=%s: the result is not x[i + stride] - x[i] for every valid i"
+               % (norm(width) if width is not None else None, norm(kernels) if kernels is not None else None), calls[0].lineno)
+    return rr
+
+
+RULES = [r19_1, r19_2, r19_3, r19_4]
 CLAIM = (
     "R19.1 each window_sample branch of SlidingWindowTransformer.fit builds the documented arange(start, width, step) "
     "(symbolic comparison); R19.2 the window and difference counts are ceil of a true division; R19.3 every row of the "
-    "np.empty buffer is written on both branches with the slice [i*stride, i*stride + width)."
+    "np.empty buffer is written on both branches with the slice [i*stride, i*stride + width) (or the one-step sampled form "
+    "sequence[sample + i*stride]); R19.4 the difference kernel's row i is -1 at start + i*stride and +1 exactly `step` columns "
+    "later, and SequentialDifferenceTransformer asks for width stride + 1, start 0, step = stride."
 )
 NOT_DECIDED = "the kernel arithmetic, padding values and the multivariate layout."
